@@ -2,38 +2,85 @@
 
 Two observers on the real Telomere: the on_phase_change callback stream (every hop the object
 announces) and get_phase()/get_status()/get_statistics() polled around every call. A reference
-relation (from the statement) judges every hop per operation; a virtual clock drives the time
-limits; the instance's lock is wrapped in a DetectingLock, so a call that can never return is
-decided at the lock (no timeout); an icontract invariant keeps the length in [0, max].
+relation (from the statement) judges every hop per operation; a virtual clock (integer-millisecond
+model, sub-second to many-day jumps) drives the time limits; the instance's locks are wrapped in
+DetectingLocks, so a call that can never return is decided at the lock (no timeout) — also after a
+user callback raised; an icontract invariant keeps the length in [0, max]. Sessions run silent and
+verbose, with / without / with raising callbacks, as twins sharing one process, as 20 000+-operation
+histories, and are replayed without the read-only calls / with the other verbosity (differential).
 """
+import contextlib
+import inspect
+import os
 import sys
+import time as _time
+from datetime import timedelta
 
 from rv import core, sched
 from rv.locks import DetectingLock, WouldHang, wrap_all_locks
 from rv.vclock import VClock, patched
 
+# naive local datetimes are subtracted by the code under test: keep multi-day virtual jumps free of DST steps
+os.environ["TZ"] = "UTC"
+if hasattr(_time, "tzset"):
+    _time.tzset()
+
 PID = "C09"
 LEVEL = "exploration"
-TECHNIQUE = "runtime monitoring: phase-change callback stream + polled state judged against the legal-transition relation per operation, virtual clock, DetectingLock hang oracle, icontract length invariant"
+TECHNIQUE = ("runtime monitoring: phase-change callback stream + polled state judged against the legal-transition relation per operation, "
+             "virtual clock (ms grid), DetectingLock hang oracle (also after raising user callbacks), icontract length invariant, "
+             "differential replays (no read-only calls / other verbosity), twin instances, long histories")
 RULE = ("configs: max_operations 1..12, error_threshold 1..4, renewal on/off, lifetime {None,1h}, idle {None,5min}; sequences over "
         "{start, tick(0|1|2|5), record_error, heartbeat, check_timeouts, renew(None|0|1|3, reset_errors), trigger_apoptosis, terminate, reset, "
         "advance clock (1min|6min|61min)}: depth <= 3 (quick: 1/8 slice per run, rotated by seed) / <= 4 (thorough: 1/4 slice per run, rotated by seed) swept on a config grid, each also without a leading start(); depth 5-7 sampled; "
+        "sampled sessions additionally vary: verbose mode (stdout to a sink), callbacks both/phase-only/none/raising (on chosen target phases, on_senescence), "
+        "extreme / fractional / non-finite costs and amounts, lifetime {3.6 s .. 48 h, 0} and idle {0.3 s .. 3 d, 0} limits with advances exactly on / 1 ms around the limit, "
+        "whole days (+ remainder below the limit), 30 and 400 days; twin instances (one possibly default-constructed) used alternately; "
+        "2 (quick) / 6 (thorough) sessions of > 20 000 operations on one instance; a quarter of the sampled sessions replayed without polling and with the other verbosity; "
         "non-trivial = visits >= 3 phases; distinct = (phase trace, return-value trace)")
 ASSUMPTIONS = ["non-negative tick costs and renewal amounts", "reset() re-creates the lifecycle: absorbing-ness of TERMINATED is judged between resets",
                "TERMINATED->TERMINATED / APOPTOTIC->APOPTOTIC announcements are not moves; renew in APOPTOTIC may return True if the phase does not change",
-               "idle time is measured from the latest start/tick/heartbeat/renew"]
+               "idle time is measured from the latest start/tick/heartbeat/renew",
+               "a time limit is reached when elapsed >= limit; a limit of 0 / None is 'off' (no obligation)",
+               "an exception raised by the user's on_phase_change / on_senescence handler may propagate out of the lifecycle call; what is judged is the state "
+               "afterwards (hops legal, limits enforced, length in range) and that later calls return",
+               "Hayflick bound counts ticks of cost >= 1; without a phase-change callback a call's hops are judged as a composition of legal hops"]
 
 OPS = [("start",), ("tick", 1), ("tick", 0), ("tick", 2), ("tick", 5), ("record_error",), ("heartbeat",), ("check_timeouts",),
        ("renew", None, True), ("renew", 1, False), ("renew", 3, True), ("renew", 0, False),
        ("trigger_apoptosis",), ("terminate",), ("reset",), ("advance", 60.0), ("advance", 360.0), ("advance", 3660.0)]
+OPS_W = [2, 8, 1, 2, 1, 4, 1, 3, 2, 1, 1, 1, 1, 1, 1, 1, 1, 1]
+# arithmetic-boundary arguments (class: extreme / fractional / non-finite values); all non-negative
+XOPS = [("tick", 10 ** 18), ("tick", 2 ** 53 + 1), ("tick", 0.5), ("tick", 1.0), ("tick", float("inf")), ("tick", float("nan")),
+        ("tick", 1e-9), ("tick", 0.1 + 0.2), ("tick", 5000), ("renew", 2 ** 60, True), ("renew", 0.5, False), ("renew", 10 ** 6, False),
+        ("renew", float("inf"), True), ("tick", True)]
 SWEEP_CFG = [(mo, et, ren, life, idle) for mo in (1, 2, 3, 10) for et in (1, 2) for ren in (True, False)
              for (life, idle) in ((None, None), (1.0, 5.0))]
+DAY_MS = 86_400_000
+LIFE_X = [None, None, 1.0, 0.001, 0.5, 24.0, 30.0, 48.0, 0]          # hours
+IDLE_X = [None, 5.0, 5.0, 0.005, 0.5, 30.0, 1440.0, 1500.0, 4320.0, 0]  # minutes
+LONG_R = {"quick": (3, 1004), "thorough": (3, 1004, 2005, 3006, 4007, 5008)}
+LONG_OPS = {"quick": 24000, "thorough": 30000}
 
 
 class InvariantBroken(Exception):
     pass
 
 
+class HandlerBoom(Exception):
+    """Raised by the workload's own on_phase_change / on_senescence handlers."""
+
+
+class _Sink:
+    def write(self, s):
+        return len(s)
+
+    def flush(self):
+        pass
+
+
+_SINK = _Sink()
+_XIDS = frozenset(id(x) for x in XOPS)
 _INV = {"n": 0}
 _Monitored = None
 
@@ -83,11 +130,19 @@ def plan(tier):
     depth = 3 if tier == "quick" else 4
     nsweep = len(SWEEP_CFG) * sweep_total(depth) // (8 if tier == "quick" else 4) * 2
     extra = 9000 if tier == "quick" else 300000
+    q = tier == "quick"
     return {"cases": nsweep + extra, "shards": 8 if tier == "quick" else 14, "min_nontrivial": 300,
-            "timeout": 600 if tier == "quick" else 2400,
+            "timeout": 600 if tier == "quick" else 6000,   # generous: the machine may be shared (never a verdict)
             "require": {"calls": 50000, "hops_judged": 10000, "ticks_in_terminal_phase": 1000, "unstarted_first_ticks": 500,
                         "timeouts_forced": 40, "error_limit_forced": 500, "renewals_refused": 500, "lock_acquisitions": 50000,
-                        "invariant_evaluations": 100000, "thread_schedules": 1000, "thread_outcomes_judged": 1000, "status_reads_from_callbacks": 5000, "time_scenarios": 1000}}
+                        "invariant_evaluations": 100000, "thread_schedules": 1000, "thread_outcomes_judged": 1000, "status_reads_from_callbacks": 5000,
+                        "time_scenarios": 200,
+                        # round 3
+                        "timescale_scenarios": 150, "day_jump_timeouts_forced": 10, "subsecond_timeouts_forced": 5, "boundary_timeouts_forced": 3,
+                        "verbose_sessions": 500, "no_callback_sessions": 100, "handler_raised_calls": 100, "calls_after_handler_raised": 100,
+                        "extreme_argument_calls": 200, "twin_sessions": 100, "default_constructed_sessions": 10,
+                        "replays_without_reads": 200, "replays_other_verbosity": 200,
+                        "long_session_calls": 8000 if q else 30000, "max:calls_on_one_instance": 20000}}
 
 
 def run_case(ctx, n):
@@ -103,25 +158,97 @@ def run_case(ctx, n):
         seq = decode(idx, depth)
         if half == 0:
             seq = [("start",)] + seq
-        return drive(ctx, n, SWEEP_CFG[ci], seq)
+        # a fifth of the swept sequences run verbosely (the logging branches are different code)
+        return drive(ctx, n, SWEEP_CFG[ci], seq, dict(BASE_OPTS, silent=(n % 5 != 3)))
     rng = ctx.rng(n)
+    r = n - nsweep
+    if r in LONG_R[ctx.tier]:
+        return long_case(ctx, n, rng)
     if n % (300 if ctx.tier == "quick" else 3000) == 5:
         return thread_case(ctx, n, rng)
     cfg = (rng.randint(1, 12), rng.randint(1, 4), rng.random() < 0.7,
            rng.choice([None, None, 1.0]), rng.choice([None, None, 5.0]))
     L = rng.randint(5, 7) if rng.random() < 0.8 else rng.randint(8, 30)
-    w = [2, 8, 1, 2, 1, 4, 1, 3, 2, 1, 1, 1, 1, 1, 1, 1, 1, 1]
-    seq = rng.choices(OPS, weights=w, k=L)
+    seq = rng.choices(OPS, weights=OPS_W, k=L)
     if rng.random() < 0.6:
         seq = [("start",)] + seq
+    orng = ctx.rng("opts", n)
+    opts = random_opts(orng)
     if n % 4 == 2:
-        # time scenario: limits configured, sequences made of the time-relevant operations (started or not)
-        ctx.count("time_scenarios")
-        cfg = (cfg[0], cfg[1], cfg[2], rng.choice([1.0, 1.0, None]), rng.choice([5.0, 5.0, None]))
-        topS = [("heartbeat",), ("check_timeouts",), ("advance", 60.0), ("advance", 360.0), ("advance", 3660.0), ("tick", 1), ("start",),
-                ("renew", None, True), ("reset",), ("record_error",)]
-        seq = rng.choices(topS, weights=[3, 4, 2, 4, 3, 2, 1, 1, 1, 1], k=rng.randint(3, 8))
-    drive(ctx, n, cfg, seq)
+        if (n // 4) % 2 == 0:
+            # time scenario: limits configured, sequences made of the time-relevant operations (started or not)
+            ctx.count("time_scenarios")
+            cfg = (cfg[0], cfg[1], cfg[2], rng.choice([1.0, 1.0, None]), rng.choice([5.0, 5.0, None]))
+            topS = [("heartbeat",), ("check_timeouts",), ("advance", 60.0), ("advance", 360.0), ("advance", 3660.0), ("tick", 1), ("start",),
+                    ("renew", None, True), ("reset",), ("record_error",)]
+            seq = rng.choices(topS, weights=[3, 4, 2, 4, 3, 2, 1, 1, 1, 1], k=rng.randint(3, 8))
+        else:
+            ctx.count("timescale_scenarios")
+            cfg, seq = timescale_scenario(rng, cfg)
+    elif orng.random() < 0.25:
+        # arithmetic-boundary arguments mixed into the sequence
+        seq = list(seq)
+        for _ in range(orng.randint(1, 3)):
+            seq.insert(orng.randint(0, len(seq)), orng.choice(XOPS))
+    if orng.random() < 0.12:
+        return twin_case(ctx, n, cfg, seq, opts, orng)
+    ok = drive(ctx, n, cfg, seq, opts)
+    if ok and orng.random() < 0.25:
+        differential(ctx, n, cfg, seq, opts, ok)
+
+
+BASE_OPTS = {"silent": True, "callbacks": "both", "raise_on": frozenset(), "raise_sen": False, "ctor": "full"}
+
+
+def random_opts(orng):
+    o = dict(BASE_OPTS)
+    o["silent"] = orng.random() >= 0.3
+    x = orng.random()
+    o["callbacks"] = "none" if x < 0.12 else ("phase" if x < 0.2 else "both")
+    if o["callbacks"] != "none" and orng.random() < 0.2:
+        targets = ["active", "senescent", "apoptotic", "terminated"]
+        k = orng.choice([1, 1, 1, 2, 4])
+        o["raise_on"] = frozenset(orng.sample(targets, k)) if orng.random() < 0.8 else frozenset()
+        o["raise_sen"] = o["callbacks"] == "both" and (not o["raise_on"] or orng.random() < 0.3)
+        if not o["raise_on"] and not o["raise_sen"]:
+            o["raise_on"] = frozenset(["terminated"])
+    return o
+
+
+def _limit_ms(life, idle):
+    out = []
+    if life:
+        out.append(timedelta(hours=life) // timedelta(milliseconds=1))
+    if idle:
+        out.append(timedelta(minutes=idle) // timedelta(milliseconds=1))
+    return out
+
+
+def timescale_scenario(rng, cfg):
+    """Limits from 0.3 s to 3 days (or 0 = off); advances exactly on the limit, 1 ms around it, whole days plus a remainder below
+    the limit, months, and sub-second steps."""
+    life = rng.choice(LIFE_X)
+    idle = rng.choice(IDLE_X)
+    lims = _limit_ms(life, idle) or [300_000]
+    adv = []
+    for L in lims:
+        adv += [L, L, L - 1, L + 1, DAY_MS + L - 1, DAY_MS + L, rng.randint(1, 3) * DAY_MS + rng.randrange(0, L),
+                rng.randint(1, 3) * DAY_MS + rng.randrange(0, min(L, DAY_MS)), max(1, L // 2), max(1, L // 3)]
+    adv += [DAY_MS, DAY_MS, 2 * DAY_MS, 3 * DAY_MS, 30 * DAY_MS, 400 * DAY_MS, DAY_MS + 1, DAY_MS - 1, 100, 1, 25 * 3_600_000]
+    ops = [("heartbeat",), ("check_timeouts",), ("tick", 1), ("start",), ("renew", None, True), ("reset",), ("record_error",), ("tick", 0)]
+    w = [3, 7, 3, 2, 1, 1, 1, 1]
+    seq = []
+    if rng.random() < 0.7:
+        seq.append(rng.choice([("start",), ("tick", 1), ("tick", 1), ("record_error",)]))
+    for _ in range(rng.randint(2, 5)):
+        if rng.random() < 0.3:
+            seq.append(rng.choices(ops, weights=w)[0])
+        seq.append(("advance_ms", rng.choice(adv)))
+        if rng.random() < 0.85:
+            seq.append(("check_timeouts",))
+        if rng.random() < 0.4:
+            seq.append(rng.choices(ops, weights=w)[0])
+    return (cfg[0], max(cfg[1], 2), cfg[2], life, idle), seq
 
 
 def allowed_hops(op):
@@ -143,195 +270,491 @@ def allowed_hops(op):
     return set()
 
 
-def drive(ctx, n, cfg, seq):
-    import operon_ai.state.telomere as tmod
+def composed_hops(op):
+    """What an observer without the callback stream can see of one call: a legal hop or a chain of legal hops."""
+    ok = set(allowed_hops(op))
+    for _ in range(3):
+        ok |= {(a, d) for (a, b) in ok for (c, d) in ok if b == c}
+    return ok
+
+
+class MsClock:
+    """Virtual time kept as an integer number of milliseconds (exact model arithmetic; one float rounding per instant)."""
+
+    def __init__(self):
+        self.v = VClock(base=1_700_000_000.0)
+        self.ms = 0
+
+    def advance(self, ms):
+        assert ms >= 0
+        self.ms += int(ms)
+        self.v.offset = self.ms / 1000.0
+
+
+def _adv_ms(op):
+    return int(op[1]) if op[0] == "advance_ms" else int(round(op[1] * 1000))
+
+
+def _ctor_defaults():
+    from operon_ai.state.telomere import Telomere
+    p = inspect.signature(Telomere.__init__).parameters
+    return (p["max_operations"].default, p["error_threshold"].default, p["allow_renewal"].default,
+            p["max_lifetime_hours"].default, p["idle_timeout_minutes"].default, p["silent"].default)
+
+
+def make_instance(cls, cfg, opts, hops, holder, ctx=None, raised=None):
+    """Build a lifecycle with the workload's handlers (record the hop, optionally read the public getters, optionally raise)."""
     max_ops, err_th, renewal, life, idle = cfg
-    clock = VClock(base=1_700_000_000.0)
-    hops = []
-    witness = {"config": {"max_operations": max_ops, "error_threshold": err_th, "allow_renewal": renewal,
-                          "max_lifetime_hours": life, "idle_timeout_minutes": idle}, "sequence": [list(o) for o in seq], "trace": []}
+    reads = opts.get("reads", False)
 
-    def viol(mech, what):
-        ctx.violation(mech, what, witness)
-
-    M = monitored_class()
-    with patched(clock, tmod):
-        holder = {}
-        reads = ctx.rng("reads", n).random() < 0.35      # a third of the cases: the application's handlers read the lifecycle's public getters
-
-        def on_change(o, nw):
-            hops.append((o.value, nw.value))
-            if reads and "t" in holder:
+    def on_change(o, nw):
+        hops.append((o.value, nw.value))
+        if reads and "t" in holder:
+            if ctx is not None:
                 ctx.count("status_reads_from_callbacks")
-                tt = holder["t"]
-                tt.get_status(); tt.get_phase(); tt.get_statistics(); tt.is_active(); tt.is_operational(); tt.get_age()
+            tt = holder["t"]
+            tt.get_status(); tt.get_phase(); tt.get_statistics(); tt.is_active(); tt.is_operational(); tt.get_age()
+        if nw.value in opts["raise_on"]:
+            e = HandlerBoom("on_phase_change -> %s" % nw.value)
+            if raised is not None:
+                raised.append(e)
+            raise e
 
-        def on_sen(reason):
-            if reads and "t" in holder:
-                holder["t"].get_status()
-        t = M(max_operations=max_ops, max_lifetime_hours=life, idle_timeout_minutes=idle, error_threshold=err_th,
-              allow_renewal=renewal, on_phase_change=on_change, on_senescence=on_sen, silent=True)
-        holder["t"] = t
-        wrapped = wrap_all_locks(t, DetectingLock, "Telomere")
-        started_at = None
-        last_activity = None
-        true_ticks = 0
-        phases_seen = {"nascent"}
-        rets = []
-        for op in seq:
-            name = op[0]
-            if name == "advance":
-                clock.advance(op[1])
-                witness["trace"].append(["advance", op[1]])
-                continue
-            ctx.count("calls")
-            p0 = t.get_phase().value
-            s0 = t.get_statistics()
-            len0 = s0["telomere_length"]
-            del hops[:]
-            ret = None
+    def on_sen(reason):
+        if reads and "t" in holder:
+            holder["t"].get_status()
+        if opts["raise_sen"]:
+            e = HandlerBoom("on_senescence")
+            if raised is not None:
+                raised.append(e)
+            raise e
+    if opts["ctor"] == "defaults":
+        t = cls()
+    else:
+        kw = dict(max_operations=max_ops, max_lifetime_hours=life, idle_timeout_minutes=idle, error_threshold=err_th,
+                  allow_renewal=renewal, silent=opts["silent"])
+        if opts["callbacks"] in ("both", "phase"):
+            kw["on_phase_change"] = on_change
+        if opts["callbacks"] == "both":
+            kw["on_senescence"] = on_sen
+        t = cls(**kw)
+    holder["t"] = t
+    return t
+
+
+def _call(t, op):
+    name = op[0]
+    if name == "start":
+        return t.start()
+    if name == "tick":
+        return t.tick(op[1])
+    if name == "record_error":
+        return t.record_error()
+    if name == "heartbeat":
+        return t.heartbeat()
+    if name == "check_timeouts":
+        return t.check_timeouts()
+    if name == "renew":
+        return t.renew(op[1], reset_errors=op[2])
+    if name == "trigger_apoptosis":
+        return t.trigger_apoptosis("test")
+    if name == "terminate":
+        return t.terminate()
+    if name == "reset":
+        return t.reset()
+    raise ValueError(name)
+
+
+def _state(t):
+    s = t.get_statistics()
+    return (t.get_phase().value, s["telomere_length"], s["operations_count"], s["error_count"], s["renewal_count"])
+
+
+class Session:
+    """One lifecycle instance + the reference bookkeeping that judges it, one operation at a time."""
+
+    def __init__(self, ctx, n, cfg, opts, mclock, witness, label="", monitored=True, trace_cap=None):
+        self.ctx, self.n, self.cfg, self.opts, self.clk, self.witness, self.label = ctx, n, cfg, opts, mclock, witness, label
+        self.max_ops, self.err_th, self.renewal, life, idle = cfg
+        self.life_td = timedelta(hours=life) if life else None
+        self.idle_td = timedelta(minutes=idle) if idle else None
+        self.hops = []
+        self.raised = []
+        self.holder = {}
+        self.trace_cap = trace_cap
+        self.stream = opts["callbacks"] != "none" and opts["ctor"] != "defaults"
+        cls = monitored_class() if monitored else __import__("operon_ai.state.telomere", fromlist=["Telomere"]).Telomere
+        self.t = make_instance(cls, cfg, opts, self.hops, self.holder, ctx, self.raised)
+        self.wrapped = wrap_all_locks(self.t, DetectingLock, "Telomere")
+        self.started_ms = None
+        self.activity_ms = None
+        self.true_ticks = 0
+        self.phases_seen = {"nascent"}
+        self.toks = []
+        self.ncalls = 0
+        self.boomed = False
+        self.dead = False
+        if not opts["silent"] or opts["ctor"] == "defaults":
+            ctx.count("verbose_sessions")
+        if not self.stream:
+            ctx.count("no_callback_sessions")
+        if opts["ctor"] == "defaults":
+            ctx.count("default_constructed_sessions")
+
+    def viol(self, mech, what):
+        self.dead = True
+        with contextlib.redirect_stdout(sys.__stdout__):
+            self.ctx.violation(mech, what, self.witness)
+
+    def _trace(self, entry):
+        tr = self.witness["trace"]
+        tr.append(([self.label] + entry) if self.label else entry)
+        if self.trace_cap and len(tr) > 2 * self.trace_cap:
+            del tr[:-self.trace_cap]
+            self.witness["trace_truncated"] = True
+
+    def finish(self):
+        self.ctx.counters["lock_acquisitions"] = self.ctx.counters.get("lock_acquisitions", 0) + sum(w.acquisitions for w in self.wrapped)
+        self.ctx.counters["invariant_evaluations"] = _INV["n"]
+
+    def step(self, op):
+        """Apply one operation and judge it. Returns False after a violation (the session stops)."""
+        ctx, t, name = self.ctx, self.t, op[0]
+        max_ops, err_th = self.max_ops, self.err_th
+        ctx.count("calls")
+        self.ncalls += 1
+        if self.boomed:
+            ctx.count("calls_after_handler_raised")
+        if id(op) in _XIDS:
+            ctx.count("extreme_argument_calls")
+        p0 = t.get_phase().value
+        s0 = t.get_statistics()
+        len0 = s0["telomere_length"]
+        del self.hops[:]
+        ret = None
+        boom = False
+        try:
+            if name == "tick" and p0 == "nascent":
+                ctx.count("unstarted_first_ticks")
+            ret = _call(t, op)
+        except WouldHang as e:
+            self._trace([name, "WOULD HANG", p0])
+            mech = "tick-before-start-self-deadlock" if (name == "tick" and p0 == "nascent") else "self-deadlock:%s:%s" % (name, p0)
+            self.viol(mech, "%s() in phase %s can never return: %s re-acquired at %s while held since %s" % (
+                name, p0, e.lock_name, e.second_stack[-2:], e.first_stack[-2:]))
+            return False
+        except InvariantBroken as e:
+            self._trace([name, "INVARIANT", str(e)])
+            self.viol("length-out-of-range", "%s: %s" % (name, e))
+            return False
+        except HandlerBoom as e:
+            if not any(e is x for x in self.raised):
+                self.viol("raises:%s" % name, "%s raised %r" % (name, e))
+                return False
+            boom = True
+            self.boomed = True
+            ctx.count("handler_raised_calls")
+        except BaseException as e:
+            self._trace([name, "RAISED", repr(e)])
+            self.viol("raises:%s" % name, "%s raised %r" % (name, e))
+            return False
+        self.toks.append("BOOM" if boom else repr(ret))
+        # ---- every call returns: a lock still held after the call means the next locking call can never return (probed, decided at the lock)
+        if any(w.locked() for w in self.wrapped):
+            ctx.count("lock_probes")
             try:
-                if name == "start":
-                    t.start()
-                elif name == "tick":
-                    if p0 == "nascent":
-                        ctx.count("unstarted_first_ticks")
-                    ret = t.tick(op[1])
-                elif name == "record_error":
-                    ret = t.record_error()
-                elif name == "heartbeat":
-                    t.heartbeat()
-                elif name == "check_timeouts":
-                    ret = t.check_timeouts()
-                elif name == "renew":
-                    ret = t.renew(op[1], reset_errors=op[2])
-                elif name == "trigger_apoptosis":
-                    t.trigger_apoptosis("test")
-                elif name == "terminate":
-                    t.terminate()
-                elif name == "reset":
-                    t.reset()
+                t.heartbeat()
+                self.activity_ms = self.clk.ms
             except WouldHang as e:
-                witness["trace"].append([name, "WOULD HANG", p0])
-                mech = "tick-before-start-self-deadlock" if (name == "tick" and p0 == "nascent") else "self-deadlock:%s:%s" % (name, p0)
-                viol(mech, "%s() in phase %s can never return: %s re-acquired at %s while held since %s" % (
-                    name, p0, e.lock_name, e.second_stack[-2:], e.first_stack[-2:]))
-                return
-            except InvariantBroken as e:
-                witness["trace"].append([name, "INVARIANT", str(e)])
-                viol("length-out-of-range", "%s: %s" % (name, e))
-                return
+                self._trace([list(op), "handler raised" if boom else "ret=%r" % (ret,), p0, "then heartbeat() WOULD HANG"])
+                self.viol("hang-after-handler-raised:%s" % name if boom else "hang-after:%s" % name,
+                          "after %s() %s the lifecycle's %s is still held (since %s): the next call (heartbeat) can never return" % (
+                              name, "let the handler's exception out" if boom else "returned", e.lock_name, e.first_stack[-2:]))
+                return False
             except BaseException as e:
-                witness["trace"].append([name, "RAISED", repr(e)])
-                viol("raises:%s" % name, "%s raised %r" % (name, e))
-                return
-            p1 = t.get_phase().value
-            s1 = t.get_statistics()
-            st = t.get_status()
-            len1 = s1["telomere_length"]
-            phases_seen.add(p1)
-            rets.append(ret)
-            witness["trace"].append([list(op), "ret=%r" % (ret,), p0, "->", p1, "len %d->%d" % (len0, len1), list(hops)])
-            # ---- hop legality: announced hops, plus any silent change
-            seen = list(hops)
-            chain_end = seen[-1][1] if seen else p0
-            if not seen and p1 != p0:
-                seen = [(p0, p1)]
-                chain_end = p1
-            elif seen and (seen[0][0] != p0 or chain_end != p1):
-                if name != "reset":
-                    viol("announced-hops-disagree-with-state", "%s: announced %s but phase went %s -> %s" % (name, seen, p0, p1))
-                    return
-            if name == "reset" and p1 != "nascent":
-                viol("reset-not-nascent", "reset left phase %s" % p1)
-                return
-            ok = allowed_hops(name)
-            for (a, b) in seen:
-                ctx.count("hops_judged")
-                if (a, b) not in ok:
-                    if a == "terminated" and b != "terminated":
-                        mech = "leaves-terminated:%s" % name
-                    elif a == "nascent" and b == "senescent":
-                        mech = "senescence-from-nascent:%s" % name
-                    else:
-                        mech = "illegal-transition:%s:%s->%s" % (name, a, b)
-                    viol(mech, "%s() moved the lifecycle %s -> %s" % (name, a, b))
-                    return
-            # ---- per-operation obligations
-            if not (0 <= len1 <= max_ops) or st.telomere_length != len1:
-                viol("length-out-of-range", "length %d outside [0,%d] after %s" % (len1, max_ops, name))
-                return
-            now = clock.time()
-            if ("nascent", "active") in seen:
-                started_at = now
-                last_activity = now
-            if name == "tick":
-                if p0 in ("apoptotic", "terminated"):
-                    ctx.count("ticks_in_terminal_phase")
-                    if ret is not False or len1 != len0 or s1["operations_count"] != s0["operations_count"] or p1 != p0:
-                        viol("terminal-phase-ticks", "tick in %s returned %r, length %d->%d, ops %d->%d" % (
-                            p0, ret, len0, len1, s0["operations_count"], s1["operations_count"]))
-                        return
+                self.viol("raises:heartbeat", "heartbeat raised %r" % (e,))
+                return False
+        p1 = t.get_phase().value
+        s1 = t.get_statistics()
+        st = t.get_status()
+        if self.opts.get("reads"):
+            t.get_events(5); t.is_active(); t.is_operational(); t.get_age(); repr(t); repr(st)
+        len1 = s1["telomere_length"]
+        self.phases_seen.add(p1)
+        self._trace([list(op), "handler raised" if boom else "ret=%r" % (ret,), p0, "->", p1, "len %r->%r" % (len0, len1), list(self.hops)])
+        # ---- hop legality: announced hops, plus any silent change
+        seen = list(self.hops)
+        chain_end = seen[-1][1] if seen else p0
+        ok = allowed_hops(name)
+        if not seen and p1 != p0:
+            seen = [(p0, p1)]
+            chain_end = p1
+            if not self.stream:
+                ok = composed_hops(name)
+        elif seen and (seen[0][0] != p0 or chain_end != p1):
+            if name != "reset":
+                self.viol("announced-hops-disagree-with-state", "%s: announced %s but phase went %s -> %s" % (name, seen, p0, p1))
+                return False
+        if name == "reset" and p1 != "nascent" and not boom:
+            self.viol("reset-not-nascent", "reset left phase %s" % p1)
+            return False
+        for (a, b) in seen:
+            ctx.count("hops_judged")
+            if (a, b) not in ok:
+                if a == "terminated" and b != "terminated":
+                    mech = "leaves-terminated:%s" % name
+                elif a == "nascent" and b == "senescent":
+                    mech = "senescence-from-nascent:%s" % name
                 else:
-                    last_activity = now
-                if ret is not (p1 == "active"):
-                    viol("tick-return-value", "tick returned %r but the phase afterwards is %s" % (ret, p1))
-                    return
-                if ret is True and op[1] >= 1:
-                    true_ticks += 1
-                    if true_ticks > max_ops:
-                        viol("hayflick-bound", "%d ticks reported True since the last renewal with max_operations=%d" % (true_ticks, max_ops))
-                        return
-                if len1 > len0:
-                    viol("tick-lengthens", "tick(%d) lengthened the telomere %d -> %d" % (op[1], len0, len1))
-                    return
-            elif name == "heartbeat":
-                last_activity = now
-            elif name == "start":
-                pass
-            elif name == "renew":
-                if ret is True:
-                    if not renewal or p0 == "terminated":
-                        viol("renew-not-refused", "renew succeeded with allow_renewal=%s in phase %s" % (renewal, p0))
-                        return
-                    true_ticks = 0
-                    last_activity = now
-                else:
-                    ctx.count("renewals_refused")
-                    if p1 != p0 or len1 != len0:
-                        viol("refused-renew-changes-state", "refused renew moved %s->%s / length %d->%d" % (p0, p1, len0, len1))
-                        return
-                if len1 < len0:
-                    viol("renew-shortens", "renew shortened the telomere")
-                    return
-            elif name == "record_error":
-                if s1["error_count"] >= err_th:
-                    ctx.count("error_limit_forced")
+                    mech = "illegal-transition:%s:%s->%s" % (name, a, b)
+                self.viol(mech, "%s() moved the lifecycle %s -> %s" % (name, a, b))
+                return False
+        # ---- per-operation obligations
+        if not (0 <= len1 <= max_ops) or st.telomere_length != len1:
+            self.viol("length-out-of-range", "length %r outside [0,%r] after %s" % (len1, max_ops, name))
+            return False
+        now = self.clk.ms
+        if ("nascent", "active") in seen or (p0 == "nascent" and p1 in ("active", "senescent") and name in ("start", "tick", "record_error")):
+            self.started_ms = now
+            self.activity_ms = now
+        if name == "tick":
+            cost = op[1]
+            if p0 in ("apoptotic", "terminated"):
+                ctx.count("ticks_in_terminal_phase")
+                if (not boom and ret is not False) or len1 != len0 or s1["operations_count"] != s0["operations_count"] or p1 != p0:
+                    self.viol("terminal-phase-ticks", "tick in %s returned %r, length %r->%r, ops %d->%d" % (
+                        p0, ret, len0, len1, s0["operations_count"], s1["operations_count"]))
+                    return False
+            else:
+                self.activity_ms = now
+            if not boom and ret is not (p1 == "active"):
+                self.viol("tick-return-value", "tick returned %r but the phase afterwards is %s" % (ret, p1))
+                return False
+            if not boom and ret is True and cost >= 1:
+                self.true_ticks += 1
+                if self.true_ticks > max_ops:
+                    self.viol("hayflick-bound", "%d ticks reported True since the last renewal with max_operations=%d" % (self.true_ticks, max_ops))
+                    return False
+            if len1 > len0:
+                self.viol("tick-lengthens", "tick(%r) lengthened the telomere %r -> %r" % (cost, len0, len1))
+                return False
+        elif name == "heartbeat":
+            self.activity_ms = now
+        elif name == "renew":
+            if boom:
+                self.true_ticks = 0
+                self.activity_ms = now
+            elif ret is True:
+                if not self.renewal or p0 == "terminated":
+                    self.viol("renew-not-refused", "renew succeeded with allow_renewal=%s in phase %s" % (self.renewal, p0))
+                    return False
+                self.true_ticks = 0
+                self.activity_ms = now
+            else:
+                ctx.count("renewals_refused")
+                if p1 != p0 or len1 != len0:
+                    self.viol("refused-renew-changes-state", "refused renew moved %s->%s / length %r->%r" % (p0, p1, len0, len1))
+                    return False
+            if (not self.renewal or p0 == "terminated") and (p1 != p0 or len1 != len0):
+                self.viol("renew-not-refused", "renew with allow_renewal=%s in phase %s changed the lifecycle (%s->%s, length %r->%r)" % (
+                    self.renewal, p0, p0, p1, len0, len1))
+                return False
+            if len1 < len0:
+                self.viol("renew-shortens", "renew shortened the telomere")
+                return False
+        elif name == "record_error":
+            if s1["error_count"] >= err_th:
+                ctx.count("error_limit_forced")
+                if p1 == "active":
+                    self.viol("error-limit-not-enforced", "error_count %d >= threshold %d and still ACTIVE" % (s1["error_count"], err_th))
+                    return False
+        elif name == "check_timeouts":
+            if p0 == "active":
+                age = None if self.started_ms is None else timedelta(milliseconds=now - self.started_ms)
+                idl = None if self.activity_ms is None else timedelta(milliseconds=now - self.activity_ms)
+                aged = self.life_td is not None and age is not None and age >= self.life_td
+                idled = self.idle_td is not None and idl is not None and idl >= self.idle_td
+                if aged or idled:
+                    ctx.count("timeouts_forced")
+                    el = [x for (x, f) in ((age, aged), (idl, idled)) if f]
+                    lim = [x for (x, f) in ((self.life_td, aged), (self.idle_td, idled)) if f]
+                    if any(x >= timedelta(days=1) for x in el):
+                        ctx.count("day_jump_timeouts_forced")
+                    if any(x < timedelta(seconds=1) for x in lim):
+                        ctx.count("subsecond_timeouts_forced")
+                    if any(x == y for x, y in zip(el, lim)):
+                        ctx.count("boundary_timeouts_forced")
                     if p1 == "active":
-                        viol("error-limit-not-enforced", "error_count %d >= threshold %d and still ACTIVE" % (s1["error_count"], err_th))
-                        return
-            elif name == "check_timeouts":
-                if p0 == "active":
-                    aged = life is not None and started_at is not None and now - started_at >= life * 3600.0
-                    idled = idle is not None and last_activity is not None and now - last_activity >= idle * 60.0
-                    if aged or idled:
-                        ctx.count("timeouts_forced")
-                        if p1 == "active":
-                            viol("time-limit-not-enforced", "age/idle limit reached (aged=%s idle=%s) and still ACTIVE" % (aged, idled))
-                            return
-                if ret is not None and ret is True and p1 in ("apoptotic", "terminated"):
-                    viol("check-timeouts-return", "check_timeouts returned True in phase %s" % p1)
-                    return
-            elif name == "reset":
-                true_ticks = 0
-                started_at = None
-                last_activity = None
-        ctx.counters["lock_acquisitions"] = ctx.counters.get("lock_acquisitions", 0) + sum(w.acquisitions for w in wrapped)
-        ctx.counters["invariant_evaluations"] = _INV["n"]
-        if len(phases_seen) >= 3:
-            ctx.nontrivial((tuple(x[2] + ">" + x[4] for x in witness["trace"] if len(x) > 4), tuple(rets)))
+                        self.viol("time-limit-not-enforced", "age/idle limit reached (aged=%s: %s of %s; idle=%s: %s of %s) and still ACTIVE" % (
+                            aged, age, self.life_td, idled, idl, self.idle_td))
+                        return False
+            if not boom and ret is True and p1 in ("apoptotic", "terminated"):
+                self.viol("check-timeouts-return", "check_timeouts returned True in phase %s" % p1)
+                return False
+        elif name == "reset":
+            self.true_ticks = 0
+            self.started_ms = None
+            self.activity_ms = None
+        return True
+
+
+def _witness(cfg, opts, seq=None):
+    w = {"config": {"max_operations": cfg[0], "error_threshold": cfg[1], "allow_renewal": cfg[2],
+                    "max_lifetime_hours": cfg[3], "idle_timeout_minutes": cfg[4]},
+         "options": {"silent": opts["silent"], "callbacks": opts["callbacks"], "handler_raises_on": sorted(opts["raise_on"]),
+                     "on_senescence_raises": opts["raise_sen"], "constructor": opts["ctor"], "handlers_read_getters": opts.get("reads", False)},
+         "trace": []}
+    if seq is not None:
+        w["sequence"] = [list(o) for o in seq]
+    return w
+
+
+def drive(ctx, n, cfg, seq, opts=None):
+    """One session; returns the session's (tokens, final state) when no violation was found, else None."""
+    import operon_ai.state.telomere as tmod
+    opts = dict(opts or BASE_OPTS)
+    opts["reads"] = ctx.rng("reads", n).random() < 0.35   # a third of the cases: the application's handlers read the lifecycle's public getters
+    witness = _witness(cfg, opts, seq)
+    clk = MsClock()
+    with patched(clk.v, tmod), contextlib.redirect_stdout(_SINK):   # verbose lifecycles print: stdout goes to a sink for the whole session
+        s = Session(ctx, n, cfg, opts, clk, witness)
+        for op in seq:
+            if op[0] in ("advance", "advance_ms"):
+                clk.advance(_adv_ms(op))
+                witness["trace"].append(["advance_ms", _adv_ms(op)])
+                continue
+            if not s.step(op):
+                return None
+        s.finish()
+        final = _state(s.t)
+        if len(s.phases_seen) >= 3:
+            ctx.nontrivial((tuple(x[2] + ">" + x[4] for x in witness["trace"] if len(x) > 4), tuple(s.toks)))
     if n % 6000 == 0:
         ctx.sample(witness)
+    return (s.toks, final)
+
+
+def blind_run(cfg, opts, seq, silent):
+    """The same session on the plain class without any read-only call between the operations."""
+    import operon_ai.state.telomere as tmod
+    clk = MsClock()
+    o = dict(opts, silent=silent, reads=False)
+    toks = []
+    with patched(clk.v, tmod), contextlib.redirect_stdout(_SINK):   # verbose lifecycles print: stdout goes to a sink for the whole session
+        t = make_instance(tmod.Telomere, cfg, o, [], {})
+        wrap_all_locks(t, DetectingLock, "Telomere")
+        for op in seq:
+            if op[0] in ("advance", "advance_ms"):
+                clk.advance(_adv_ms(op))
+                continue
+            try:
+                toks.append(repr(_call(t, op)))
+            except WouldHang:
+                toks.append("WOULD HANG")
+                return toks, None
+            except HandlerBoom:
+                toks.append("BOOM")
+            except BaseException as e:
+                toks.append("RAISED %s" % type(e).__name__)
+        return toks, _state(t)
+
+
+def differential(ctx, n, cfg, seq, opts, primary):
+    """Read-only calls and verbosity must not change any outcome: the polled run, the same run without a single read, and that
+    run with the other verbosity must agree on every return value and on the final (phase, length, counters)."""
+    w = _witness(cfg, dict(opts, reads=False), seq)
+    a = blind_run(cfg, opts, seq, opts["silent"])
+    ctx.count("replays_without_reads")
+    if repr(a) != repr(primary):
+        ctx.violation("outcome-depends-on-reads", "with the read-only calls (get_phase/get_status/get_statistics/...) interleaved the session gave %r, without them %r" % (
+            primary, a), dict(w, with_reads=primary, without_reads=a))
+        return
+    b = blind_run(cfg, opts, seq, not opts["silent"])
+    ctx.count("replays_other_verbosity")
+    if repr(a) != repr(b):
+        ctx.violation("outcome-depends-on-verbosity", "silent=%s gave %r, silent=%s gave %r" % (opts["silent"], a, not opts["silent"], b),
+                      dict(w, first=a, second=b))
+
+
+def twin_case(ctx, n, cfg, seq, opts, orng):
+    """Two differently configured lifecycles alive in one process, used alternately under one clock; each is judged on its own."""
+    import operon_ai.state.telomere as tmod
+    ctx.count("twin_sessions")
+    opts = dict(opts, reads=False)
+    cfg2 = (orng.randint(1, 12), orng.randint(1, 4), not cfg[2] if orng.random() < 0.7 else cfg[2],
+            orng.choice([None, 1.0, 0.5]), orng.choice([None, 5.0, 1.0]))
+    opts2 = random_opts(orng)
+    opts2["reads"] = False
+    seq2 = orng.choices(OPS, weights=OPS_W, k=orng.randint(4, 9))
+    if orng.random() < 0.25:
+        # the second twin is built with no arguments at all (constructor defaults: verbose, no handlers)
+        d = _ctor_defaults()
+        cfg2 = d[:5]
+        opts2 = dict(BASE_OPTS, ctor="defaults", silent=d[5], callbacks="none", reads=False)
+        seq2 = orng.choices(OPS + [("tick", 5000), ("tick", 4000)], weights=OPS_W + [6, 6], k=orng.randint(4, 9))
+    witness = {"instances": {"A": _witness(cfg, opts, seq), "B": _witness(cfg2, opts2, seq2)}, "trace": []}
+    for k in ("A", "B"):
+        del witness["instances"][k]["trace"]
+    clk = MsClock()
+    with patched(clk.v, tmod), contextlib.redirect_stdout(_SINK):   # verbose lifecycles print: stdout goes to a sink for the whole session
+        sa = Session(ctx, n, cfg, opts, clk, witness, label="A")
+        sb = Session(ctx, n, cfg2, opts2, clk, witness, label="B")
+        qa, qb = list(seq), list(seq2)
+        while qa or qb:
+            s, q = (sa, qa) if (qa and (not qb or orng.random() < 0.5)) else (sb, qb)
+            op = q.pop(0)
+            if op[0] in ("advance", "advance_ms"):
+                clk.advance(_adv_ms(op))
+                witness["trace"].append(["advance_ms", _adv_ms(op)])
+                continue
+            if not s.step(op):
+                return
+        sa.finish(); sb.finish()
+        if len(sa.phases_seen) >= 3 or len(sb.phases_seen) >= 3:
+            ctx.nontrivial(("twin", tuple(sa.toks), tuple(sb.toks), sorted(sa.phases_seen), sorted(sb.phases_seen)))
+
+
+def long_case(ctx, n, rng):
+    """One instance, > 20 000 operations: many renewal cycles (each bounded by max_operations True unit ticks), errors, time
+    limits, occasional resets; then an end state and thousands of further calls that must all be refused."""
+    import operon_ai.state.telomere as tmod
+    total = LONG_OPS[ctx.tier]
+    cfg = (rng.choice([3, 7, 12, 12, 1000]), rng.choice([2, 3, 4]), True, rng.choice([None, 1.0, 30.0]), rng.choice([None, 5.0, 1500.0]))
+    opts = dict(BASE_OPTS, silent=rng.random() < 0.5, callbacks=rng.choice(["both", "both", "none"]), reads=False)
+    if opts["callbacks"] == "both" and rng.random() < 0.4:
+        opts["raise_on"] = frozenset([rng.choice(["senescent", "active"])])
+    live = [("tick", 1), ("tick", 0), ("tick", 2), ("record_error",), ("renew", None, True), ("renew", 2, False), ("heartbeat",),
+            ("check_timeouts",), ("advance", 60.0), ("advance", 360.0), ("advance_ms", DAY_MS), ("reset",), ("start",)]
+    lw = [40, 2, 3, 3, 8, 2, 3, 4, 3, 1, 0.3, 0.05, 1]
+    end_at = int(total * 0.85)
+    ender = rng.choice([("terminate",), ("terminate",), ("trigger_apoptosis",)])
+    witness = _witness(cfg, opts)
+    witness["sequence"] = "long session: %d operations drawn from %s, %s after %d, then every operation kind" % (total, [list(o) for o in live], list(ender), end_at)
+    clk = MsClock()
+    renewals = 0
+    with patched(clk.v, tmod), contextlib.redirect_stdout(_SINK):   # verbose lifecycles print: stdout goes to a sink for the whole session
+        s = Session(ctx, n, cfg, opts, clk, witness, monitored=False, trace_cap=40)
+        for i in range(total):
+            if i < end_at:
+                op = rng.choices(live, weights=lw)[0]
+            elif i == end_at:
+                op = ender
+            else:
+                op = rng.choices(OPS[:14] + OPS[15:], k=1)[0]   # everything but reset
+            if op[0] in ("advance", "advance_ms"):
+                clk.advance(_adv_ms(op))
+                continue
+            ctx.count("long_session_calls")
+            if not s.step(op):
+                return
+            if op[0] == "renew" and s.toks[-1] == "True":
+                renewals += 1
+            if len(s.toks) > 64:
+                del s.toks[:-8]
+        s.finish()
+        ctx.maxc("long_session_renewals", renewals)
+        ctx.maxc("calls_on_one_instance", s.ncalls)
+        ctx.nontrivial(("long", sorted(s.phases_seen), renewals > 100, cfg, opts["silent"], opts["callbacks"]))
 
 
 TOPS = [("tick", 1), ("tick", 2), ("record_error",), ("renew", None, True), ("trigger_apoptosis",), ("terminate",), ("start",), ("check_timeouts",)]
@@ -346,11 +769,6 @@ def _apply(t, op):
     if k == "trigger_apoptosis":
         return t.trigger_apoptosis("x")
     return getattr(t, k)()
-
-
-def _state(t):
-    s = t.get_statistics()
-    return (t.get_phase().value, s["telomere_length"], s["operations_count"], s["error_count"], s["renewal_count"])
 
 
 def thread_case(ctx, n, rng):
